@@ -5,7 +5,8 @@
    `tgt_of rel` is the OS-level target <root>/<rel>, `key rel` its component list;
    `sane_b f` (decidable; evaluated on every observed workspace by the correspondence) says every
    file of f is reachable through directories — true of every real tree. *)
-From RipV Require Import Base.Prelude Base.Fs Model.Paths Model.Checkpoint Proofs.PathsProofs Proofs.CheckpointProofs.
+From RipV Require Import Base.Prelude Base.Fs Model.Paths Model.Checkpoint Proofs.PathsProofs Proofs.CheckpointProofs
+  Proofs.AutoCoverProofs Gen.AutoCover.
 
 (* For every workspace f, every list of requested path strings, EVERY later workspace f2 (whatever
    happened in between) : if rewind succeeds then every covered path that was a file is readable with
@@ -77,6 +78,95 @@ Theorem c14_probe_unfixed_refuted :
     /\ file_at f (key rel) = Some b /\ rewind f [(rel, None)] = (f3, None) /\ file_at f3 (key rel) = None.
 Proof. exact probe_unfixed_refuted. Qed.
 Print Assumptions c14_probe_unfixed_refuted.
+
+(* ---------- "an automatic checkpoint ... covers every file that tool can change, so an edit can always be undone" ----------
+   `tree_b f` / `nonul_b f` (decidable; evaluated on observed workspaces): every entry of the listing is reachable
+   through directories and no name holds a NUL byte - true of every real tree. *)
+
+(* ANY edit that changes only covered files (it may also create directories) can be undone: from the edited
+   workspace f' the rewind SUCCEEDS and every file, covered or not, has again the bytes / the absence it had when
+   the checkpoint was taken.  (What the tool has to guarantee is exactly the three hypotheses about f'.) *)
+Theorem c14_covered_edit_undone : forall (f : fs) (root : str) (raws : list str) (ck : list entry) (f' : fs),
+  create f root raws = Ok ck -> tree_b f = true -> nonul_b f = true -> sane_b f' = true ->
+  (forall r, lookup f r = Some Dir -> lookup f' r = Some Dir) ->
+  (forall rel saved, In (rel, saved) ck -> lookup f' (key rel) <> Some Dir) ->
+  (forall q, (forall rel saved, In (rel, saved) ck -> key rel <> q) -> file_at f' q = file_at f q) ->
+  exists f2, rewind f' ck = (f2, None) /\ forall q, file_at f2 q = file_at f q.
+Proof. exact covered_edit_undone_b. Qed.
+Print Assumptions c14_covered_edit_undone.
+
+(* The write tool (run_write: resolve_path, the `file_name` refusal, create_dir_all of the parent, then append /
+   temporary file + remove + rename / plain write, with every error branch) changes no file but the one its
+   argument names, creates directories only, and never turns the named path into a directory - for every
+   workspace, argument string, mode, content, and whether the call succeeds or fails.  In atomic mode (0) the
+   name of the temporary file, `with_extension(ext)` as std computes it, must not be taken. *)
+Theorem c14_write_changes_only_its_target : forall (f : fs) (raw ext : str) (mode : N) (data : bytes) (f' : fs) (er : option N),
+  write_tool expected_tool_steps f raw ext mode data = (f', er) -> sane_b f = true ->
+  (mode = 0 -> lookup f (t_path (tmp_tgt raw ext)) = None) ->
+  (forall p b, lookup f' p = Some (File b) -> dirs_ok f' [] p = None)      (* every file of f' is reachable *)
+  /\ (forall r, lookup f r = Some Dir -> lookup f' r = Some Dir)
+  /\ (lookup f' (t_path (mk_tgt [] raw)) = Some Dir -> lookup f (t_path (mk_tgt [] raw)) = Some Dir)
+  /\ (forall q, q <> t_path (mk_tgt [] raw) -> file_at f' q = file_at f q).
+Proof. exact write_tool_effect_b. Qed.
+Print Assumptions c14_write_changes_only_its_target.
+
+(* The two together, for EVERY extraction that passes cover_wf: the step lists of the tool's resolver and of the
+   checkpoint's files_for_invocation, the way the temporary name is made and the file-system program of run_write
+   (all read from /repo on every run, tools/gen/autocover.py).  Whatever `write` is asked, when it returns, either
+   ToolRunner took an automatic checkpoint before the call - then rewinding to it succeeds and EVERY file of the
+   workspace (named by the call or not) is as it was before the call - or no checkpoint could be taken (argument
+   refused / names a directory) and then the call has not changed any file. *)
+Theorem c14_auto_write_undone : forall (found : bool) (ts as_ : list N) (tk : N) (prog : list (N * N)),
+  cover_wf found ts as_ tk prog = true ->
+  forall (f : fs) (root raw ext : str) (mode : N) (data : bytes) (f' : fs) (er : option N),
+  is_absolute root = true -> tree_b f = true -> nonul_b f = true ->
+  (mode = 0 -> forall x, arg_interp ts raw = Ok x -> lookup f (t_path (tmp_tgt x ext)) = None) ->
+  write_tool ts f raw ext mode data = (f', er) ->
+  match auto_checkpoint as_ f root raw with
+  | Some ck => exists f2, rewind f' ck = (f2, None) /\ forall q, file_at f2 q = file_at f q
+  | None => forall q, file_at f' q = file_at f q
+  end.
+Proof. exact auto_write_undone_b. Qed.
+Print Assumptions c14_auto_write_undone.
+
+(* this run's /repo passes (generated obligation Gen/AutoCover.v gen_cover_ok) *)
+Theorem c14_repo_auto_cover_wf :
+  cover_wf gen_cover_found gen_tool_steps gen_auto_steps gen_tmp_kind gen_write_prog = true.
+Proof. exact gen_cover_ok. Qed.
+Print Assumptions c14_repo_auto_cover_wf.
+
+(* a tool-side resolver that trims its argument while the checkpoint side takes it literally (seeded change C14-4):
+   `write "notes.txt "` checkpoints the absent "notes.txt ", edits notes.txt, and the rewind succeeds without
+   undoing the edit *)
+Theorem c14_auto_cover_trim_refuted :
+  exists ts f root raw ext mode data ck f' f2 q,
+    ts <> expected_tool_steps
+    /\ tree_b f = true /\ nonul_b f = true
+    /\ auto_checkpoint expected_auto_steps f root raw = Some ck
+    /\ write_tool ts f raw ext mode data = (f', None)
+    /\ rewind f' ck = (f2, None) /\ file_at f2 q <> file_at f q.
+Proof. exact auto_cover_trim_refuted. Qed.
+Print Assumptions c14_auto_cover_trim_refuted.
+
+(* a fixed temporary name (`with_extension("tmp")`, seeded change C14-6): the hypothesis "the name is not taken"
+   cannot be assumed; with a sibling report.tmp the write of report.txt destroys it and the rewind cannot bring it back *)
+Theorem c14_fixed_tmp_refuted :
+  exists f root raw data ck f' f2 q,
+    tree_b f = true /\ nonul_b f = true
+    /\ auto_checkpoint expected_auto_steps f root raw = Some ck
+    /\ write_tool expected_tool_steps f raw x_tmp_ext 0 data = (f', None)
+    /\ rewind f' ck = (f2, None) /\ file_at f2 q <> file_at f q.
+Proof. exact fixed_tmp_refuted. Qed.
+Print Assumptions c14_fixed_tmp_refuted.
+
+(* the hypotheses of c14_auto_write_undone are satisfiable: the same call with the uuid-suffixed name *)
+Example c14_ex_auto_write_undone :
+  tree_b x_ws6 = true /\ nonul_b x_ws6 = true
+  /\ lookup x_ws6 (t_path (tmp_tgt x_report corr_ext)) = None
+  /\ auto_checkpoint expected_auto_steps x_ws6 x_root x_report = Some x_ck6
+  /\ exists f', write_tool expected_tool_steps x_ws6 x_report corr_ext 0 x_data = (f', None)
+                /\ file_at f' [x_report] = Some x_data /\ rewind f' x_ck6 = (x_ws6, None).
+Proof. exact ex_auto_write_undone. Qed.
 
 (* the hypotheses are satisfiable: a create / edit / rewind round trip *)
 Example c14_ex_round_trip :
